@@ -6,7 +6,11 @@
    member types, typed values) when its type map holds the canonical rendering of d's struct types
    and its domain / message values read, member by member through the documented coercions, as d's
    typed values.  [wf_doc] is well-formedness per the EIP (declared struct names, valid atomic
-   widths, values of their types); [types_dims_fit] says fixed array dimensions fit Go's int.
+   widths, values of their types) EXTENDED by the conventions of the implementation (referee I4): the
+   absent struct value is also accepted at the top-level message position (a document without message,
+   theorem 13) and at the top-level domain position (reachable from no Go input, theorem 10b), and a
+   struct may carry a name such as "uint" or "bytes33" that is no VALID atomic spelling; so [wf_doc]
+   contains every EIP document and a few more.  [types_dims_fit] says fixed array dimensions fit Go's int.
    The hash function H is arbitrary in every statement (keccak256 is one instance). *)
 From Coq Require Import String.
 From Coq Require Import List NArith ZArith Bool Arith Lia Permutation.
@@ -537,3 +541,274 @@ Example C04_nonvacuous_from_json_array :
    (exists e, EncodeTypedDataV4 H big_other
                 (Some (ComposeExamples.order_td_with ComposeExamples.order_amounts (GString (bs "0xdeadbeeg")))) = Err e)).
 Proof. split; [exact ComposeExamples.order_from_json|exact ComposeExamples.order_bad_rejected]. Qed.
+
+(* ======================================================================================================
+   Referee round (design/reviews/C04.md; answers in design/C04.md "Referee report and answers").
+   Proofs in Eip712/RefereeComplete.v, RefereeAbi.v, RefereeSurface.v.
+   ====================================================================================================== *)
+From FFS Require Import Eip712.RefereeComplete Eip712.RefereeAbi Eip712.RefereeSurface.
+From Coq Require Import Sorted.
+
+(* 10. Completeness of the representation relation (referee I1).  Theorems 1 and 8 speak about the
+       Go-level documents that represent a well-formed specification document; conversely EVERY
+       well-formed specification document is represented by a Go-level document, namely its canonical
+       rendering [render_doc d] (RefereeComplete.v: type strings by ty_name; integers as JSON numbers in
+       canonical decimal, address / bytes<M> / bytes as "0x" + hex digit pairs, bool as a JSON boolean,
+       string as a string, a struct as the object of its members, the absent struct as null, arrays as
+       arrays) — so no class of well-formed documents (negative integers, empty bytes, empty arrays,
+       absent references, ...) is silently outside theorem 1.  Two guards, both necessary (10b, 10c):
+       the members of a struct have distinct names, and the domain value is not the absent struct. *)
+Theorem C04_every_wf_document_has_a_rendering :
+  forall d : doc,
+    wf_doc d -> members_distinct (d_types d) -> d_domain d <> VNone ->
+    represents_json (render_doc d) d.
+Proof. exact render_doc_represents. Qed.
+Print Assumptions C04_every_wf_document_has_a_rendering.
+
+(* 10a. ... and therefore hashed to its specification digest (1 + 10 in one statement). *)
+Theorem C04_every_wf_document_is_hashed :
+  forall (H : bytes -> bytes) (big_other : bytes -> option Z) (d : doc),
+    wf_doc d -> types_dims_fit (d_types d) -> members_distinct (d_types d) -> d_domain d <> VNone ->
+    represents_json (render_doc d) d /\
+    EncodeTypedDataV4 H big_other (Some (render_doc d)) = Ok (digest H d).
+Proof. exact every_wf_doc_is_hashed. Qed.
+Print Assumptions C04_every_wf_document_is_hashed.
+
+(* 10b. The guard "domain value present" is necessary: [wf_doc] accepts the absent struct at the
+        top-level domain position (its "domain separator" would be 32 zero bytes), and no Go-level
+        document stands for such a specification document (EncodeTypedDataV4 replaces a nil domain by the
+        empty object).  These specification documents are outside theorems 1-9. *)
+Theorem C04_absent_domain_not_representable :
+  forall (big_other : bytes -> option Z) (td : typed_data) (d : doc),
+    d_domain d = VNone -> ~ represents big_other td d.
+Proof. exact absent_domain_not_representable. Qed.
+Print Assumptions C04_absent_domain_not_representable.
+
+(* 10c. The guard "distinct member names" is necessary: struct T { bool x; string x; } with the value
+        (true, "a") is well formed for [wf_doc] and has no Go-level representative. *)
+Theorem C04_duplicate_members_not_representable :
+  wf_doc dup_doc /\ types_dims_fit (d_types dup_doc) /\ d_domain dup_doc <> VNone /\
+  ~ members_distinct (d_types dup_doc) /\
+  forall (big_other : bytes -> option Z) (td : typed_data), ~ represents big_other td dup_doc.
+Proof. exact duplicate_members_not_representable. Qed.
+Print Assumptions C04_duplicate_members_not_representable.
+
+(* non-vacuity of 10: the specification document of the EIP's Mail example, written out by hand
+   (ComposeExamples.mail_doc), meets the guards; its rendering parses back to it and — under the
+   executable Keccak-256 — hashes to the digest published in the EIP *)
+Example C04_nonvacuous_rendering :
+  members_distinct (d_types ComposeExamples.mail_doc) /\ d_domain ComposeExamples.mail_doc <> VNone /\
+  (forall big_other, parse_doc big_other (render_doc ComposeExamples.mail_doc) = Some ComposeExamples.mail_doc) /\
+  (forall big_other, EncodeTypedDataV4 Keccak.keccak256 big_other (Some (render_doc ComposeExamples.mail_doc)) =
+                     Ok (Lit.unhex "be609aee343fb3c4b28e1df9e632fca64fcfaede20f02e86244efddf30957bd2")).
+Proof.
+  destruct C04_nonvacuous_from_json as (_ & Hwf & Hdims & Hall & Hk).
+  assert (Hdist : members_distinct (d_types ComposeExamples.mail_doc)).
+  { unfold members_distinct. repeat constructor; simpl; intuition discriminate. }
+  assert (Hnn : d_domain ComposeExamples.mail_doc <> VNone) by discriminate.
+  split; [exact Hdist|]. split; [exact Hnn|]. split.
+  - intros big_other. vm_compute. reflexivity.
+  - intros big_other.
+    destruct (C04_every_wf_document_is_hashed Keccak.keccak256 big_other _ Hwf Hdims Hdist Hnn) as [_ E].
+    rewrite E. rewrite <- (Hk big_other). symmetry. apply Hall.
+Qed.
+
+(* 11. The ABI clause at the level of the whole document (referee I2a).  With the hypotheses of 6 and
+       no struct of the ABI called EIP712Domain: the type set [ts] derived by ABItoTypedDataV4 carries no
+       EIP712Domain entry (EncodeTypedDataV4 supplies the empty domain type), and the TypedData document
+       built from it — any domain object, any message representing a well-typed value v of the primary
+       struct — has the EIP-712 digest of the specification document whose types are the ABI's structs
+       plus the empty domain struct ([with_empty_domain sts]); so has the document built from any
+       hand-written type set [hand] for the same structs. *)
+Theorem C04_abi_document_digest :
+  forall (H : bytes -> bytes) (big_other : bytes -> option Z) (re : bytes -> option bytes)
+         (sts : types) (tc : atc) (primary : bytes) (hand : typeset)
+         (dom msg : option gmap) (v : value),
+    wf_types sts -> types_dims_fit sts ->
+    describes re sts tc (Struct primary) ->
+    (forall n, In n (keys sts) -> reachable sts primary n) ->
+    ~ In domain_name (keys sts) ->
+    repr_types hand sts -> tlookup domain_name hand = None ->
+    let d := {| d_types := with_empty_domain sts; d_primary := primary; d_domain := VStruct []; d_message := v |} in
+    repr big_other (with_empty_domain sts) (Struct primary) (match msg with Some m => GMap m | None => GNil end) v ->
+    well_typed (with_empty_domain sts) (Struct primary) v = true ->
+    exists ts, ABItoTypedDataV4 re tc = Ok (primary, ts) /\ tlookup domain_name ts = None /\
+      wf_doc d /\
+      EncodeTypedDataV4 H big_other (Some (mkTD (Some ts) primary dom msg)) = Ok (digest H d) /\
+      EncodeTypedDataV4 H big_other (Some (mkTD (Some hand) primary dom msg)) = Ok (digest H d).
+Proof. exact abi_document_digest. Qed.
+Print Assumptions C04_abi_document_digest.
+
+(* non-vacuity of 11: the ABI example of 6 as a whole document, with a domain object holding a key *)
+Example C04_nonvacuous_abi_document :
+  forall (H : bytes -> bytes) (big_other : bytes -> option Z),
+  exists v ts,
+    ABItoTypedDataV4 ex_re ex_tc = Ok (bs "Mail", ts) /\
+    let d := {| d_types := with_empty_domain ex_sts; d_primary := bs "Mail"; d_domain := VStruct []; d_message := v |} in
+    let m := match ex_msg with GMap m => Some m | _ => None end in
+    wf_doc d /\
+    EncodeTypedDataV4 H big_other (Some (mkTD (Some ts) (bs "Mail") (Some [(bs "name", GString (bs "x"))]) m)) = Ok (digest H d) /\
+    EncodeTypedDataV4 H big_other (Some (mkTD (Some ex_hand) (bs "Mail") None m)) = Ok (digest H d).
+Proof.
+  intros H big_other.
+  assert (Es : parse_types ex_hand = Some ex_sts) by (vm_compute; reflexivity).
+  assert (Hwb : wf_types_b ex_sts = true) by (vm_compute; reflexivity).
+  assert (Hdb : types_dims_fit_b ex_sts = true) by (vm_compute; reflexivity).
+  pose proof (wf_types_b_ok _ Hwb) as Hwf. apply types_dims_fit_b_ok in Hdb.
+  assert (Hv : exists v, parse_val big_other (with_empty_domain ex_sts) 10 (Struct (bs "Mail")) ex_msg = Some v /\
+                         well_typed (with_empty_domain ex_sts) (Struct (bs "Mail")) v = true).
+  { eexists. split; [vm_compute; reflexivity | vm_compute; reflexivity]. }
+  destruct Hv as (v & Ev & Ht).
+  assert (Hd : describes ex_re ex_sts ex_tc (Struct (bs "Mail"))).
+  { vm_compute. split; [reflexivity|]. eexists. split; [reflexivity|].
+    repeat split; try reflexivity; eexists; (split; [reflexivity|]); repeat split; reflexivity. }
+  assert (Hreach : forall n, In n (keys ex_sts) -> reachable ex_sts (bs "Mail") n).
+  { intros n [<-|[<-|[]]].
+    - eapply reach_step with (b := bs "Mail"); [apply reach_refl | vm_compute; reflexivity | vm_compute; auto].
+    - apply reach_refl. }
+  assert (Hnd : ~ In domain_name (keys ex_sts)) by (intros [E|[E|[]]]; discriminate E).
+  destruct (C04_abi_document_digest H big_other ex_re ex_sts ex_tc (bs "Mail") ex_hand
+              (Some [(bs "name", GString (bs "x"))]) (match ex_msg with GMap m => Some m | _ => None end) v
+              Hwf Hdb Hd Hreach Hnd (parse_types_repr _ _ Es Hwf) eq_refl
+              (parse_val_ok _ _ _ _ _ _ Ev) Ht) as (ts & E1 & _ & Hw & E2 & _).
+  destruct (C04_abi_document_digest H big_other ex_re ex_sts ex_tc (bs "Mail") ex_hand
+              None (match ex_msg with GMap m => Some m | _ => None end) v
+              Hwf Hdb Hd Hreach Hnd (parse_types_repr _ _ Es Hwf) eq_refl
+              (parse_val_ok _ _ _ _ _ _ Ev) Ht) as (ts' & E1' & _ & _ & _ & E3).
+  exists v, ts. split; [exact E1|]. cbv zeta. split; [exact Hw|]. split; [exact E2|exact E3].
+Qed.
+
+(* 12. Facts needed to trust Spec.v, restated (referee I5): the executable dependency list of the
+       specification ([Spec.deps]: saturation of the declared names, primary removed, insertion sort) is
+       exactly the set of struct types reachable from the primary type other than itself — the inductive
+       closure [reachable] — without duplicates and in ascending byte order ([bytes_leb] = Go's string
+       order); and the sort shared by specification and model is a sort. *)
+Theorem C04_spec_deps_are_reachable_sorted :
+  forall (sts : types) (n : bytes),
+    wf_types sts -> In n (keys sts) ->
+    (forall x, In x (deps sts n) <-> (reachable sts n x /\ x <> n)) /\
+    StronglySorted (fun a b => bytes_leb a b = true) (deps sts n) /\
+    NoDup (deps sts n).
+Proof. exact spec_deps_reachable_sorted. Qed.
+Print Assumptions C04_spec_deps_are_reachable_sorted.
+
+Theorem C04_spec_sort_is_a_sort :
+  forall l : list bytes,
+    StronglySorted (fun a b => bytes_leb a b = true) (Util.sort l) /\ Permutation (Util.sort l) l.
+Proof. exact spec_sort_is_a_sort. Qed.
+Print Assumptions C04_spec_sort_is_a_sort.
+
+(* 12a. Result classes of the model (referee I5; TotalProofs*.v, also stated for C14): EncodeTypedDataV4
+        never panics and never runs out of fuel, on any payload; SignTypedDataV4 never runs out of fuel,
+        and never panics when the signer answers |R|, |S| < 2^256.  So "= Ok digest" in theorems 1-11 is
+        never an artefact of fuel, and an Err result is a refusal of the implementation. *)
+Theorem C04_model_result_classes :
+  forall (H : bytes -> bytes) (big_other : bytes -> option Z)
+         (sign_direct : bytes -> option (Z * Z * Z)) (payload : option typed_data),
+    EncodeTypedDataV4 H big_other payload <> Panic /\
+    EncodeTypedDataV4 H big_other payload <> Err EOutOfFuel /\
+    SignTypedDataV4 H big_other sign_direct payload <> Err EOutOfFuel /\
+    ((forall msg r s v, sign_direct msg = Some (r, s, v) -> (Z.abs r < 2 ^ 256 /\ Z.abs s < 2 ^ 256)%Z) ->
+     SignTypedDataV4 H big_other sign_direct payload <> Panic).
+Proof. exact model_result_classes. Qed.
+Print Assumptions C04_model_result_classes.
+
+(* 12a is not true by construction: the model CAN answer Panic (a signer returning R = 2^256: FillBytes
+   on a 32-byte buffer) and Err (nil payload; a document without primary type) *)
+Example C04_model_can_panic_and_refuse :
+  let H0 := fun _ : bytes => repeat x07 32 in
+  SignTypedDataV4 H0 (fun _ => None) (fun _ => Some (2 ^ 256, 1, 27)%Z) (Some ex_td) = Panic /\
+  (exists e, EncodeTypedDataV4 H0 (fun _ => None) None = Err e) /\
+  (exists e, EncodeTypedDataV4 H0 (fun _ => None) (Some (mkTD None [] None None)) = Err e).
+Proof. cbv zeta. split; [vm_compute; reflexivity|]. split; eexists; vm_compute; reflexivity. Qed.
+
+(* non-vacuity of the deep key permutation of 2 (constructor GP_map, referee I5): the message of the
+   first example with its top-level keys in another order AND the keys of the nested object "from" in
+   another order — a different Go-level value, the same digest *)
+Definition ex_from_perm : gval :=
+  GMap [(bs "name", GString (bs "Cow"));
+        (bs "friends", GSlice [GMap [(bs "name", GString (bs "Eve")); (bs "friends", GSlice []);
+                                     (bs "wallet", GString (bs "0x01"))]]);
+        (bs "wallet", GString (bs "0xCD2a3d9F938E13CD947Ec05AbC7FE734Df8DD826"))].
+Definition ex_msg_perm : gmap :=
+  [(bs "from", ex_from_perm);
+   (bs "not a member", GNumber (bs "7"));
+   (bs "to", GSlice [GNil; GMap [(bs "name", GString (bs "Bob")); (bs "friends", GSlice []);
+                                 (bs "wallet", GString (bs "0xbBbBBBBbbBBBbbbBbbBbbbbBBbBbbbbBbBbbBBbB"))]]);
+   (bs "ids", GSlice [GSlice [GNumber (bs "65535"); GString (bs "0x10")]]);
+   (bs "contents", GString (bs "Hello, Bob!"))].
+
+Example C04_nonvacuous_nested_key_order :
+  forall (H : bytes -> bytes) (big_other : bytes -> option Z) (d : doc),
+    parse_doc big_other ex_td = Some d -> well_formed_b d = true ->
+    let td4 := mkTD (td_types ex_td) (td_primary ex_td) (td_domain ex_td) (Some ex_msg_perm) in
+    message_of td4 <> message_of ex_td /\
+    EncodeTypedDataV4 H big_other (Some td4) = Ok (digest H d).
+Proof.
+  intros H big_other d Hp Hw td4.
+  pose proof (parse_doc_represents _ _ _ Hp) as Hr.
+  unfold well_formed_b in Hw. apply andb_prop in Hw as [Hw Hdm].
+  specialize (Hr Hw). apply wf_doc_b_ok in Hw. apply types_dims_fit_b_ok in Hdm.
+  split; [discriminate|].
+  apply (C04_order_independent H big_other ex_td td4 d Hr Hw Hdm).
+  - repeat constructor; simpl; intuition discriminate.
+  - apply Permutation_refl.
+  - reflexivity.
+  - apply GP_refl.
+  - unfold message_of, td4, ex_td, ex_msg_perm. cbn [td_message].
+    eapply GP_map; [repeat constructor; simpl; intuition discriminate | apply Permutation_rev |].
+    cbn [rev app].
+    repeat (first [apply Forall2_nil | apply Forall2_cons]); cbn [fst snd]; (split; [reflexivity|]); try apply GP_refl.
+    unfold ex_from_perm.
+    eapply GP_map; [repeat constructor; simpl; intuition discriminate | apply Permutation_rev |].
+    cbn [rev app].
+    repeat (first [apply Forall2_nil | apply Forall2_cons]); cbn [fst snd]; (split; [reflexivity|]); apply GP_refl.
+Qed.
+
+(* 10d. The executable reader of theorem 1' is complete on renderings (referee I1, second half): for every
+        well-formed specification document (guards of 10), [parse_doc] reads [render_doc d] back as d —
+        types, primary type, domain value and message value; a domain-only document carries no message
+        and is read with VNone in its place.  With ProofsParse.parse_doc_represents (soundness) the
+        functional form 1' therefore covers each of these documents. *)
+From FFS Require Import Eip712.RefereeParse.
+Theorem C04_parse_doc_complete_on_renderings :
+  forall (big_other : bytes -> option Z) (d : doc),
+    wf_doc d -> members_distinct (d_types d) -> d_domain d <> VNone ->
+    parse_doc big_other (render_doc d) =
+    Some {| d_types := d_types d; d_primary := d_primary d; d_domain := d_domain d;
+            d_message := if bytes_eqb (d_primary d) domain_name then VNone else d_message d |}.
+Proof. exact parse_render_doc. Qed.
+Print Assumptions C04_parse_doc_complete_on_renderings.
+
+(* 13. Where [wf_doc] follows the implementation rather than the EIP text (referee I4), said as a
+       statement: a document WITHOUT message whose primary type is not the domain type is accepted (the
+       EIP's reference implementation refuses a null message); its specification value is the absent
+       struct and the message part of the digest is 32 zero bytes. *)
+Theorem C04_absent_message_convention :
+  forall (H : bytes -> bytes) (big_other : bytes -> option Z) (td : typed_data) (d : doc),
+    represents big_other td d -> wf_doc d -> types_dims_fit (d_types d) ->
+    td_message td = None -> bytes_eqb (d_primary d) domain_name = false ->
+    d_message d = VNone /\
+    EncodeTypedDataV4 H big_other (Some td) =
+      Ok (H ([x19; x01] ++ hashStruct H (d_types d) domain_name (d_domain d) ++ repeat x00 32)).
+Proof. exact absent_message_digest. Qed.
+Print Assumptions C04_absent_message_convention.
+
+(* non-vacuity of 13: the first example without its message *)
+Example C04_nonvacuous_absent_message :
+  forall (H : bytes -> bytes) (big_other : bytes -> option Z),
+  let td0 := mkTD (td_types ex_td) (td_primary ex_td) (td_domain ex_td) None in
+  exists d, parse_doc big_other td0 = Some d /\ well_formed_b d = true /\ d_message d = VNone /\
+    EncodeTypedDataV4 H big_other (Some td0) =
+      Ok (H ([x19; x01] ++ hashStruct H (d_types d) domain_name (d_domain d) ++ repeat x00 32)).
+Proof.
+  intros H big_other td0.
+  assert (Hp : exists d, parse_doc big_other td0 = Some d /\ well_formed_b d = true /\
+                         bytes_eqb (d_primary d) domain_name = false).
+  { eexists. split; [vm_compute; reflexivity|]. split; vm_compute; reflexivity. }
+  destruct Hp as (d & Hp & Hw & Hprim). exists d. split; [exact Hp|]. split; [exact Hw|].
+  pose proof (parse_doc_represents _ _ _ Hp) as Hr.
+  unfold well_formed_b in Hw. apply andb_prop in Hw as [Hw Hdm].
+  specialize (Hr Hw). apply wf_doc_b_ok in Hw. apply types_dims_fit_b_ok in Hdm.
+  apply (C04_absent_message_convention H big_other td0 d Hr Hw Hdm eq_refl Hprim).
+Qed.
